@@ -351,6 +351,34 @@ Proof.
     + intros x [<-|Hx] Hx2; [apply Hn; apply in_app_iff; by right|eauto].
 Qed.
 
+(* substitution adds at most the channel of the new name *)
+Lemma name_chans_subst old new n k : In k (name_chans (name_subst old new n)) -> In k (name_chans n) \/ In k (name_chans new).
+Proof.
+  unfold name_subst. destruct (initialized n && chan_eqb (chan n) (chan old)); [unfold name_chans at 1; simpl; auto|].
+  destruct (negb (initialized n) && negb (initialized old) && String.eqb (ident n) (ident old)); [unfold name_chans at 1; simpl; auto|auto].
+Qed.
+
+Lemma form_chans_subst_mut old new :
+  (forall f k, In k (form_chans (subst old new f)) -> In k (form_chans f) \/ In k (name_chans new)) /\
+  (forall b k, In k (brs_chans (subst_brs old new b)) -> In k (brs_chans b) \/ In k (name_chans new)).
+Proof.
+  assert (Hn := name_chans_subst old new).
+  apply form_branches_ind; simpl; intros;
+    repeat match goal with
+           | H : In _ (_ ++ _) |- _ => apply in_app_iff in H as [H|H]
+           | H : In _ (name_chans (name_subst old new _)) |- _ => apply Hn in H as [H|H]
+           | H : In _ (form_chans (if ?b then _ else _)) |- _ => destruct b
+           | H : In _ (form_chans (subst old new ?f)), IH : forall k, In k (form_chans (subst old new ?f)) -> _ |- _ => apply IH in H as [H|H]
+           | H : In _ (brs_chans (subst_brs old new ?f)), IH : forall k, In k (brs_chans (subst_brs old new ?f)) -> _ |- _ => apply IH in H as [H|H]
+           end;
+    rewrite ?in_app_iff; auto 6.
+  (* FCall *) apply in_flat_map in H as (a & Ha & H). apply in_map_iff in Ha as (a0 & <- & Ha0).
+  apply Hn in H as [H|H]; auto. left. apply in_flat_map. eauto.
+Qed.
+Lemma form_chans_subst old new f k :
+  In k (form_chans (subst old new f)) -> In k (form_chans f) \/ In k (name_chans new).
+Proof. apply form_chans_subst_mut. Qed.
+
 (* the channels among the keys *)
 Definition kcs (l : list key) : list cid := flat_map (fun q => match q with KC k => [k] | KV _ => [] end) l.
 Lemma kcs_app l1 l2 : kcs (l1 ++ l2) = kcs l1 ++ kcs l2.
